@@ -581,7 +581,8 @@ class Target(DataExchangeProtocol):
         res = RTOX(rtox, self.did, self.nad)
         req = self.send_dep_res_recv_dep_req(res, deadline=time.time()+1)
         if type(req) == DEP_REQ and req.pfb.fmt == DEP_REQ.TimeoutExtension:
-            return req.data[0] & 0x3F
+            if len(req.data) > 0:
+                return req.data[0] & 0x3F
 
     def send_dep_res_recv_dep_req(self, dep_res, deadline):
         def ATN(did, nad):
